@@ -1,15 +1,4 @@
-// Code generated from the triaged list of undischarged obligations; edit reasons by hand.
 package spec
 
-func init() {
-	for k, v := range assumedBounds {
-		Assumed[k] = v
-	}
-}
-
-var assumedBounds = map[string]string{
-	"BOUNDS.CTR|rtp.(*Header).Unmarshal|success (legacy arm): 0 <= n <= len(buf): return n, nil":                                    `the legacy arm advances n by len(h.Extensions[0].payload), which is the slice buf[n:extensionEnd] appended two statements earlier (extensionEnd <= len(buf) is checked): the reload of an element just appended to a slice is not tracked`,
-	"BOUNDS.CTR|rtp.(*Header).Unmarshal|ext-exact (legacy arm): header length = end of the extension block: return n, nil":          `same as above: n + len(buf[n:extensionEnd]) = extensionEnd; the appended element is not tracked through the slice`,
-	"BOUNDS.PRE|rtp.(VLA).Marshal|binary.bigEndian).PutUint16: binary.BigEndian.PutUint16(payload[offset+0:], uint16(sl.Width-1))":  `payload has length ctx.requiredLen, which analyzeVLAForMarshaling computes as the sum of exactly the byte counts written here (1 or 3, one #tl byte per 4 layers, the LEB128 sizes, 5 per layer): a sum invariant between two traversals of the same structure, outside the linear domain; protected by rule SIBLING.vla`,
-	"BOUNDS.PRE|rtp.(VLA).Marshal|binary.bigEndian).PutUint16: binary.BigEndian.PutUint16(payload[offset+2:], uint16(sl.Height-1))": `payload has length ctx.requiredLen, which analyzeVLAForMarshaling computes as the sum of exactly the byte counts written here (1 or 3, one #tl byte per 4 layers, the LEB128 sizes, 5 per layer): a sum invariant between two traversals of the same structure, outside the linear domain; protected by rule SIBLING.vla`,
-}
+// superseded by assumed_bounds_parts.go (tools/regen_assumed.sh); kept empty so that the history of the table stays readable in git
+var assumedBounds = map[string]string{}
